@@ -63,10 +63,18 @@ pub fn run_c05(cell: &C05Cell, devs: &BTreeMap<usize, usize>) -> RunResult {
     let n = cell.n;
     let mut res = RunResult::default();
     let mut sim = Sim::new(n, SimOpts { lat_menu: vec![1, 9], words: rng::menu(n + 1, n.min(5)), record_sends: false, record_received: false });
-    let cfg = c05_cfg(cell.mt);
+    // the cluster forms with the regular dissemination budget (with
+    // max_transmissions 1 larger clusters do not even form: F8); the cell's
+    // own value is set afterwards, through set_config
+    let cfg = c05_cfg(5);
     if let Err(e) = form_cluster(&mut sim, n, &cfg, true, cell.phase) {
         res.violations.push(("machinery:formation".into(), e));
         return res;
+    }
+    if cell.mt != 5 {
+        for a in 0..n as u8 {
+            sim.call(a, &Ev::SetConfig(Box::new(c05_cfg(cell.mt))));
+        }
     }
     let mut k = 0;
     while k < cell.start_event {
@@ -301,7 +309,13 @@ pub fn c05(tier: &str) -> Report {
                 stuck_cells.push(lab.clone());
             }
             if seen.insert(v.signature.clone()) {
-                rep.violate(&v.signature, format!("{} [deviations: {:?}]", v.what, v.deviations), json!({"engine": "e2", "property": "C05", "cell": lab, "deviations": v.deviations}));
+                if v.signature.starts_with("machinery:") {
+                    // a scenario that could not be set up is the harness's
+                    // problem, never a verdict about the property
+                    rep.machinery(format!("{} {} [{}]", v.signature, v.what, lab));
+                } else {
+                    rep.violate(&v.signature, format!("{} [deviations: {:?}]", v.what, v.deviations), json!({"engine": "e2", "property": "C05", "cell": lab, "deviations": v.deviations}));
+                }
             }
         }
     }
